@@ -6,7 +6,8 @@
 
      OAccept AConn   Accept returns a connection: wg.Add(1), go handleConn
      ORegister k     the handler goroutine of connection k takes s.locker and
-                     registers the connection in s.conns (then greets)
+                     registers the connection in s.conns (then greets) - or,
+                     if s.done is closed, closes the connection and returns
      OAccept ATemp   Accept fails with a net.Error whose Temporary() is true:
                      Serve sleeps tempDelay and retries
      OAccept APerm   Accept fails with any other error: Serve returns it
@@ -16,14 +17,26 @@
      OExpire         the context of the blocked Shutdown expires
 
    Modelled as written: tempDelay is NOT reset by a successful Accept; the
-   `select <-s.done` test comes before the Temporary() test; Close closes
-   the connections that are registered in s.conns - a connection whose
-   handler has been spawned but has not registered it yet is MISSED by Close
-   and is served until its peer leaves (example close_misses_unregistered in
-   ServerLifeProofs.v; observed on the real server by
-   TestScenarioObserveCloseBeforeRegistration); Shutdown waits for the
-   handlers (s.wg), not for s.conns.  Close/Shutdown are atomic here: two
-   CONCURRENT calls (DESIGN F21) are outside this model. *)
+   `select <-s.done` test comes before the Temporary() test; Shutdown waits
+   for the handlers (s.wg), not for s.conns.
+
+   Close closes the connections that are registered in s.conns.  A
+   connection whose handler has been spawned but has not registered it yet
+   (state CSpawned: the window between Accept's return and
+   `s.locker.Lock(); s.conns[c] = ...` in handleConn) is not in s.conns; its
+   handler tests s.done under s.locker BEFORE registering and, when Close or
+   Shutdown has begun, closes the connection and returns without greeting it
+   (ORegister on a state whose `done` is set: CClosedByServer; the handler's
+   deferred wg.Done() can release a blocked Shutdown).  Before the repair of
+   DESIGN F28 that connection was registered and served on a closed server.
+
+   Close/Shutdown are atomic steps here.  That is what the code implements
+   since the repair of DESIGN F21: the test of s.done and close(s.done) are
+   done while holding s.locker, which Close keeps until it has closed the
+   listeners and the registered connections (Shutdown: the listeners), and
+   which handleConn takes to test s.done and register - so every
+   registration is entirely before or entirely after a Close, and of two
+   concurrent Close/Shutdown calls exactly one finds s.done open. *)
 From Coq Require Import List Arith NArith Bool Lia.
 Import ListNotations.
 Local Open Scope N_scope.
@@ -36,7 +49,8 @@ Inductive op :=
 Inductive ret := RNil | RServerClosed | RCtxErr | RAcceptErr.
 
 (* spawned (handler not yet registered) / registered and served / closed by
-   Server.Close / ended because the peer left *)
+   the server (Server.Close, or its own handler finding s.done closed) /
+   ended because the peer left *)
 Inductive cstate := CSpawned | COpen | CClosedByServer | CFinished.
 
 Inductive obs :=
@@ -109,8 +123,19 @@ Definition step (s : st) (o : op) : st * obs :=
   | ORegister k =>
       match nth_error (conns s) k with
       | Some CSpawned =>
-          (mkSt (serving s) (serve_ret s) (done s) (lis_closed s) (delay s) (sleeps s)
-                (set_nth k COpen (conns s)) (sd_pending s), BNone)
+          if done s then
+            (* the server is closed: the handler ends the connection
+               unregistered and ungreeted, and returns (wg.Done) *)
+            let cs := set_nth k CClosedByServer (conns s) in
+            let s' := mkSt (serving s) (serve_ret s) (done s) (lis_closed s) (delay s)
+                           (sleeps s) cs (sd_pending s) in
+            if sd_pending s && (open_count s' =? 0)%nat then
+              (mkSt (serving s) (serve_ret s) (done s) (lis_closed s) (delay s)
+                    (sleeps s) cs false, BShutdownRet RNil)
+            else (s', BNone)
+          else
+            (mkSt (serving s) (serve_ret s) (done s) (lis_closed s) (delay s) (sleeps s)
+                  (set_nth k COpen (conns s)) (sd_pending s), BNone)
       | _ => (s, BSkip)
       end
   | OClose =>
